@@ -27,6 +27,8 @@ BUILD = os.path.join(VERIF, ".build")
 REPO = os.environ.get("VERIF_REPO", "/repo").rstrip("/") or "/repo"   # VERIF_REPO: run against a scratch copy (sensitivity runs)
 ALT = "" if REPO == "/repo" else "." + re.sub(r"[^A-Za-z0-9]+", "_", REPO)
 NPROC = os.cpu_count() or 4
+# evidence/ describes /repo only; runs against a scratch copy (VERIF_REPO) write theirs under .build/
+EVDIR = os.path.join(VERIF, "evidence") if not ALT else os.path.join(BUILD, "evidence" + ALT)
 
 # property -> (cluster package, quick timeout s, thorough timeout s, thorough shards, [(fuzz target, seconds)])
 def P(cluster, technique, text, note, ref, qt=300, tt=3000, shards=16, fuzz=()):
@@ -93,7 +95,7 @@ PROPS = {
     "C19": P("hdata", "rapid histories vs overlay+tombstone model on a spied MapDB, including stacked layers",
              "Every get/has is checked against the model; at each commit or discard the entire underlying store and all layer views are compared key by key, including "
              "keys never used by the case. Exploration.",
-             "MapDB back-end only; non-empty values only; replay order and concurrency are not covered", "DESIGN §7 (C19)"),
+             "MapDB back-end only (a zero-length value is a stored value there); replay order and concurrency are not covered", "DESIGN §7 (C19)"),
     "C20": P("hdata", "rapid delivery schedules with injected forgeries vs source-DB model; three state shapes including the real world state",
              "After every delivery step completion is checked to hold exactly when all source entries are present, and injected unrequested payloads are checked absent "
              "from every hashed bucket; the final target DB equals the source, has no foreign key, and reopens to the model and the trusted root. Exploration.",
@@ -476,8 +478,8 @@ def merge_evidence(pid, tier, shards, wall, violations, extra_cov=None, notes=No
         seed = 1
     evd = dict(property_id=pid, tier=tier, seed=seed, level="exploration", coverage=cov,
                assumptions=assumptions, wall_s=round(wall, 2), violations=violations)
-    os.makedirs(os.path.join(VERIF, "evidence"), exist_ok=True)
-    p = os.path.join(VERIF, "evidence", pid + ".json")
+    os.makedirs(EVDIR, exist_ok=True)
+    p = os.path.join(EVDIR, pid + ".json")
     tmp = p + ".%d" % os.getpid()
     json.dump(evd, open(tmp, "w"), indent=1, ensure_ascii=False)
     os.replace(tmp, p)
@@ -569,7 +571,7 @@ def run_check(pid, tier):
             print(open(os.path.join(s.dir, "out.txt"), errors="replace").read()[-3000:])
             print("INCONCLUSIVE property=%s %s" % (pid, why))
             return 2
-        ev = json.load(open(os.path.join(VERIF, "evidence", pid + ".json")))["coverage"]
+        ev = json.load(open(os.path.join(EVDIR, pid + ".json")))["coverage"]
         print("OK property=%s tier=%s evaluations=%d distinct_nontrivial=%d wall=%.1fs%s" % (
             pid, tier, ev["evaluations"], ev["distinct_nontrivial"], time.time() - t0,
             (" (" + "; ".join(notes) + ")") if notes else ""))
